@@ -425,6 +425,9 @@ def generate_section(section, repo_root, em, res):
         if not deleted[i]:
             em.write(r.tok.ws)
             em.write(r.tok.text)
+        elif r.tok.ws:
+            # keep the separation the deleted token provided (`if !x` -> `if x`, not `ifx`)
+            em.write(' ' if '\n' not in r.tok.ws else '\n')
         if track:
             for path, it in ends.get(i, []):
                 item_lines.setdefault(path, [None, None, it])[1] = em.line
